@@ -21,12 +21,13 @@ import time
 
 TARGETS = {
     "pysmt/simplifier.py": ["C01"], "pysmt/type_checker.py": ["C03"], "pysmt/substituter.py": ["C05"],
-    "pysmt/oracles.py": ["C12", "C13"], "pysmt/logics.py": ["C13"], "pysmt/rewritings.py": ["C10", "C11"],
+    "pysmt/oracles.py": ["C12", "C13"], "pysmt/logics.py": ["C13"], "pysmt/rewritings.py": ["C10", "C11", "C20"],
     "pysmt/solvers/solver.py": ["C16", "C15"], "pysmt/smtlib/solver.py": ["C17"], "pysmt/optimization/optimizer.py": ["C18"],
     "pysmt/smtlib/printers.py": ["C07", "C09"], "pysmt/smtlib/parser/parser.py": ["C08", "C09"], "pysmt/walkers/dag.py": ["C14", "C15", "C20"],
     "pysmt/solvers/eager.py": ["C02"], "pysmt/formula.py": ["C06", "C04", "C03"], "pysmt/fnode.py": ["C04", "C06"],
     "pysmt/smtlib/script.py": ["C07", "C16", "C09"], "pysmt/solvers/qelim.py": ["C10"], "pysmt/optimization/goal.py": ["C18"],
-    "pysmt/utils.py": ["C07"], "pysmt/typing.py": ["C07", "C03"], "pysmt/printers.py": ["C09"],
+    "pysmt/utils.py": ["C07"], "pysmt/typing.py": ["C07", "C03"], "pysmt/printers.py": ["C09"], "pysmt/parsing.py": ["C09"],
+    "pysmt/walkers/identitydag.py": ["C04", "C05"], "pysmt/walkers/tree.py": ["C07", "C20"], "pysmt/factory.py": ["C13"],
 }
 CMP = {ast.Lt: ast.LtE, ast.LtE: ast.Lt, ast.Gt: ast.GtE, ast.GtE: ast.Gt, ast.Eq: ast.NotEq, ast.NotEq: ast.Eq,
        ast.Is: ast.IsNot, ast.IsNot: ast.Is, ast.In: ast.NotIn, ast.NotIn: ast.In}
@@ -113,6 +114,7 @@ def main():
     ap.add_argument("--max", type=int, default=60)
     ap.add_argument("--seed", type=int, default=1)
     ap.add_argument("--verif", default="/verif")
+    ap.add_argument("--out", default=None, help="report file (default: <verif>/tools/mutation_report.json)")
     a = ap.parse_args()
     rng = random.Random(a.seed)
     scratch = os.path.abspath(a.scratch)
@@ -167,7 +169,7 @@ def main():
             print(json.dumps(entry)[:400], flush=True)
         report["mutants"].append(entry)
         open(path, "w").write(src)
-        json.dump(report, open(os.path.join(a.verif, "tools", "mutation_report.json"), "w"), indent=1)
+        json.dump(report, open(a.out or os.path.join(a.verif, "tools", "mutation_report.json"), "w"), indent=1)
     survivors = [e for e in report["mutants"] if e.get("tests_pass") and not e.get("caught")]
     print("mutants passing the tests: %d, caught: %d, not caught: %d" % (done, done - len(survivors), len(survivors)))
     shutil.rmtree(scratch, ignore_errors=True)
